@@ -10,7 +10,7 @@ F = fractions.Fraction
 PID = "C05"
 GEN_GROUPS = ["Sim", "SimParams", "EvseZ", "Battery", "Evse"]
 TARGETS = ["coq/Props/C05.vo", "coq/Model/SimIface.vo"]
-CASES = {"quick": 300, "thorough": 4000}
+CASES = {"quick": 300, "thorough": 2000}
 CORR_HEADER = ("From Coq Require Import ZArith QArith List String.\n"
                "From ACN Require Import Base.Num Model.EVSE Model.SimSkel Model.SimIface.\nImport ListNotations.\n"
                "Open Scope string_scope.\nOpen Scope Z_scope.\n")
